@@ -39,6 +39,11 @@ def check_block_length_flow(chk):
                 where = "%s:%s" % (rel(fn["file"]), n.get("l"))
                 hit = node_to_call.get(id(n))
                 key = "abl-read:%s" % gen.short(fn)
+                if hit is None and gen.short(fn).startswith("sbe_schema_validator::"):
+                    # the validator, which computes the value, may test it (range of the header's blockLength type);
+                    # the rule is about what the *generators* emit
+                    chk.ok("G-FLOW.c", key + ":%s" % n.get("l"), {"where": where, "reader": "validator"})
+                    continue
                 if hit is None:
                     chk.violation("G-FLOW.c", key, where,
                                   "actual_block_length is read in %s outside a format argument: the compiled block length "
